@@ -38,7 +38,7 @@ instance (p : Pool6) : Decidable p.WF := by unfold Pool6.WF; exact inferInstance
 
 def Pool6.nblocks (p : Pool6) : Nat := 2^(p.page - p.poolLen)
 
-/-- `containing.Contains(ip)` for a 16-byte, non-IPv4 `ip`. -/
+/-- `(*Allocator).contains(ip)` for a 16-byte `ip`: the address under the pool mask is the pool's base. -/
 def Pool6.contains (p : Pool6) (a : Addr) : Bool :=
   a.val / 2^(128 - p.poolLen) == p.base.val / 2^(128 - p.poolLen)
 
@@ -60,8 +60,9 @@ def A6.new (p : Pool6) : Except NewErr A6 :=
   else .ok ⟨p, Bits.new (2^(p.page - p.poolLen))⟩
 
 /-- The hint as the allocator sees it. `ip` is `some` exactly when the hint's IP is a
-16-byte address that is not IPv4-mapped ("an IPv6 hint"): for every other `net.IP`
-(nil, 4-byte, v4-mapped) `containing.Contains` is false for an IPv6 pool.
+16-byte slice ("an IPv6 hint", IPv4-mapped or not): for every other `net.IP` (nil, 4-byte)
+`(*Allocator).contains` is false. (Before the `fix:` for D18 membership was decided by
+`net.IPNet.Contains`, which is false for every IPv4-mapped address.)
 `ones, bits = hint.Mask.Size()`. -/
 structure Hint6 where
   ip   : Option Addr
